@@ -39,11 +39,12 @@ def run(ctx):
     E = ctx.effects()
     common.check_classification(P)
     n = 0
+    alias = common.versioned_cells(P)
     for m, req in sorted(TABLE.items()):
         f = P.fn("LpgStore::" + m)
         W, _ = E.closure_sets([f])
         Wl = {c[1] for c in W if c[0] == L}
-        for cell in sorted(req):
+        for cell in sorted(alias.get(c_, c_) for c_ in req):
             n += 1
             ctx.ob("R1", "LpgStore::%s#%s" % (m, cell), cell in Wl,
                    what="LpgStore::%s does not maintain LpgStore.%s: lookups through that structure disagree with the primary data "
